@@ -244,6 +244,7 @@ func (in *Interp) Concretize(t *smt.Term, bound int, what string) int {
 	}
 	dbg("concretize %s at %s: vals=%v", what, in.site(), vals)
 	if len(vals) == 0 {
+		in.res.addCut(fmt.Sprintf("%s: only values > %d feasible, path abandoned at %s", what, bound, in.site()))
 		panic(pathEnd{"concretize: no feasible value for " + what})
 	}
 	// take the first now, queue the others
